@@ -2,8 +2,8 @@
    Theorems over all inputs of the models; the remaining Impl-vs-Spec relations are compared at run
    time by the C04b correspondence (listed in the evidence assumptions).  What the code computed
    before commits a37c004 / 27e8567 / d8f414a / fef12f3 is recorded as Examples in CCMProofs.v. *)
-From GmVerif Require Import Base.ListX Base.Bytes Cipher.SM4 Cipher.GF128 Cipher.GF128Proofs Cipher.GCM
-  Cipher.CCM Cipher.AES Cipher.ZUC Cipher.Aead Cipher.AeadProofs Cipher.GCMProofs Cipher.CCMProofs.
+From GmVerif Require Import Base.ListX Base.Bytes Hash.MD Cipher.SM4 Cipher.GF128 Cipher.GF128Proofs Cipher.GCM
+  Cipher.CCM Cipher.AES Cipher.AESProofs Cipher.ZUC Cipher.ZUCProofs Cipher.Aead Cipher.AeadProofs Cipher.GCMProofs Cipher.CCMProofs.
 
 (* ---- GF(2^128) ---- *)
 Theorem C04b_gf128_mul_spec :
@@ -16,6 +16,26 @@ Theorem C04b_gf128_mul_linear :
   gf_mul_horner (N.lxor a a') b = N.lxor (gf_mul_horner a b) (gf_mul_horner a' b).
 Proof. exact gf_mul_horner_lxor_l. Qed.
 Print Assumptions C04b_gf128_mul_linear.
+
+(* the two-limb loop of src/gf128.c on (lo, hi) 64-bit words = that product on r0 + 2^64 r1 *)
+Theorem C04b_gf128_mul_limbs :
+  forall a b : gf, L64 (fst a) -> L64 (snd a) -> L64 (fst b) -> L64 (snd b) ->
+  poly (gf128_mul a b) = gf_mul_horner (poly a) (poly b) /\
+  L64 (fst (gf128_mul a b)) /\ L64 (snd (gf128_mul a b)).
+Proof. exact gf128_mul_eq_horner. Qed.
+Print Assumptions C04b_gf128_mul_limbs.
+
+(* GHASH as coded (limb pairs, gf128_from_bytes bit reversal) = GHASH over the polynomial product *)
+Theorem C04b_ghash_as_coded_eq_poly :
+  forall H, limbs_ok H -> forall k X d, limbs_ok X ->
+  poly (MD.foldn gf (ghash_step H) 16 k X d) = ghash_poly k (poly H) (poly X) d /\
+  limbs_ok (MD.foldn gf (ghash_step H) 16 k X d).
+Proof. exact ghash_foldn_poly. Qed.
+Print Assumptions C04b_ghash_as_coded_eq_poly.
+
+Theorem C04b_gf_from_bytes_limbs_ok : forall p, limbs_ok (gf_from_bytes p).
+Proof. exact gf_from_bytes_ok. Qed.
+Print Assumptions C04b_gf_from_bytes_limbs_ok.
 
 (* ---- GHASH: incremental = one-shot for every chunking ---- *)
 Theorem C04b_ghash_stream :
@@ -43,6 +63,18 @@ Theorem C04b_gcm_decrypt_stream_eq_oneshot :
 Proof. exact gcm_stream_eq_oneshot. Qed.
 Print Assumptions C04b_gcm_decrypt_stream_eq_oneshot.
 
+(* encrypt side: init / update* / finish under every chunking = the one-shot function *)
+Theorem C04b_gcm_encrypt_stream_eq_oneshot :
+  forall E iv aad taglen, gcm_iv_ok (length iv) && gcm_tag_ok taglen = true ->
+  forall chunks, (N.of_nat (length (concat chunks)) <= int_max)%N ->
+  gcm_encrypt_stream E 16 iv aad taglen chunks =
+  match gcm_encrypt E true iv aad (concat chunks) taglen with
+  | Ok (c, t) => Ok (c ++ t)
+  | _ => Err
+  end.
+Proof. exact gcm_encrypt_stream_eq_oneshot. Qed.
+Print Assumptions C04b_gcm_encrypt_stream_eq_oneshot.
+
 (* sm4_gcm_decrypt_update reads only its input, for every tag length, window state and chunk *)
 Theorem C04b_gcm_dec_update_reads_in_bounds :
   forall (c : gcm_ctx) (d : list N), gcm_dec_update_overread c d = 0%nat.
@@ -69,7 +101,36 @@ Theorem C04b_zuc_encrypt_reads_in_bounds :
 Proof. exact zuc_encrypt_reads_in_bounds. Qed.
 Print Assumptions C04b_zuc_encrypt_reads_in_bounds.
 
-(* ---- AES: finite sweeps (all 256 bytes); the composite aes_dec_enc is NOT proved ---- *)
+(* ZUC_CTX init / update* / finish under every chunking = one call of zuc_encrypt *)
+Theorem C04b_zuc_encrypt_stream :
+  forall key iv chunks,
+  let '(c, out) := zrun (zuc_encrypt_init key iv) chunks [] in
+  out ++ zuc_encrypt_finish c
+  = snd (zuc_encrypt (length (concat chunks)) (zuc_init key iv) (concat chunks)).
+Proof. exact zuc_encrypt_stream. Qed.
+Print Assumptions C04b_zuc_encrypt_stream.
+
+(* the LFSR cells stay 31-bit values under both LFSR modes *)
+Theorem C04b_zuc_lfsr_init_mode_range :
+  forall l u, Forall c31 l -> c31 u -> Forall c31 (lfsr_init_mode l u).
+Proof. exact lfsr_init_mode_c31. Qed.
+Print Assumptions C04b_zuc_lfsr_init_mode_range.
+
+Theorem C04b_zuc_lfsr_work_mode_range :
+  forall l, Forall c31 l -> Forall c31 (lfsr_work_mode l).
+Proof. exact lfsr_work_mode_c31. Qed.
+Print Assumptions C04b_zuc_lfsr_work_mode_range.
+
+(* ---- AES: decryption inverts encryption for every key of 16/24/32 bytes and every block ---- *)
+Theorem C04b_aes_dec_enc :
+  forall key blk : list N,
+  (length key = 16 \/ length key = 24 \/ length key = 32)%nat ->
+  length blk = 16%nat -> Forall (fun b => (b < 256)%N) blk ->
+  aes_decrypt_block key (aes_encrypt_block key blk) = blk.
+Proof. exact aes_dec_enc. Qed.
+Print Assumptions C04b_aes_dec_enc.
+
+(* ---- AES: finite sweeps (all 256 bytes) used by the theorem above ---- *)
 Theorem C04b_aes_sbox_is_fips197 :
   forallb (fun b => N.eqb (S_box b) (sbox_spec b)) bytes256 = true.
 Proof. exact aes_S_spec. Qed.
